@@ -116,14 +116,17 @@ def c02_batches(tier):
         confs = [("spqlios-fma", "optim")] if q else [(be, var) for be in BACKENDS for var in ("optim", "debug")]
         for be, var in confs:
             sp = SPEED[be] * (1 if var == "optim" else 8)
+            # thorough: about 2*10^4 bootstrapped outputs per optim configuration (>= 10^4 binary), a quarter of that on debug builds
+            f = 1.0 if q else (1.0 if var == "optim" else 0.25)
+            nk = 2 if q else (4 if var == "optim" else 2)
             # statistics batches: binary gates, MUX-heavy netlists, deep chains (depth >= 50), maximal admissible input noise
-            bs.append(B("stat-mixed-%s-%s-%s" % (spec, be, var), "gates", be, var, 220 if q else 900, spec=spec, nkeys=2 if q else 6, mode="netlist", gates=24, mingates=20,
+            bs.append(B("stat-mixed-%s-%s-%s" % (spec, be, var), "gates", be, var, (220 if q else 320) * f, spec=spec, nkeys=nk, mode="netlist", gates=24, mingates=20,
                         muxbias=0.6, pfault=0.6, crash=0, stats=1, weight=220 * sp, det_count=1, no_determinism=not q))
-            bs.append(B("stat-fresh-%s-%s-%s" % (spec, be, var), "gates", be, var, 600 if q else 4000, spec=spec, nkeys=2 if q else 6, mode="table", prov=0, dev=0,
+            bs.append(B("stat-fresh-%s-%s-%s" % (spec, be, var), "gates", be, var, (600 if q else 1000) * f, spec=spec, nkeys=nk, mode="table", prov=0, dev=0,
                         stats=1, weight=160 * sp, det_count=1, no_determinism=not q))
-            bs.append(B("stat-max-%s-%s-%s" % (spec, be, var), "gates", be, var, 600 if q else 4000, spec=spec, nkeys=2 if q else 6, mode="table", dev=3,
+            bs.append(B("stat-max-%s-%s-%s" % (spec, be, var), "gates", be, var, (600 if q else 1000) * f, spec=spec, nkeys=nk, mode="table", dev=3,
                         stats=1, weight=200 * sp, det_count=1, no_determinism=not q))
-            bs.append(B("stat-deep-%s-%s-%s" % (spec, be, var), "gates", be, var, 30 if q else 200, spec=spec, nkeys=2 if q else 6, mode="netlist", shape=1, gates=150,
+            bs.append(B("stat-deep-%s-%s-%s" % (spec, be, var), "gates", be, var, (30 if q else 44) * f, spec=spec, nkeys=nk, mode="netlist", shape=1, gates=150,
                         mingates=150, pfault=0.0, crash=0, stats=1, weight=200 * sp, det_count=1, no_determinism=not q))
     return bs
 
